@@ -218,4 +218,13 @@ theorem C14_serial_counts_init (keep session : Nat) (s0 : Snapshot) (ss : List S
   · rw [h, z]; simp [serialAdd]
   · rw [h, z, hn]; simp [serialMod]
 
+/-! Non-vacuity of `C14_serial_counts_init`: five further runs, three of which change the data. -/
+example :
+    let s : Nat → Snapshot := fun i => ⟨[i], [], []⟩
+    let r := (((History.init 2 7).update (s 0)).1).runCount [s 1, s 1, s 2, s 2, s 3]
+    r.2 = 3 ∧ r.1.serial = 3 := by
+  simp [History.runCount, History.init, History.update, History.serial,
+    History.pushDelta, PayloadDelta.construct, PayloadDelta.isEmpty, stdConstruct, aspaConstruct,
+    keyed, mergeH, consOpt, serialAdd, serialMod]
+
 end RoutinatorModel
